@@ -78,6 +78,10 @@ def check(toks, resp, mode, build):
         want = "V %d %d A %d %d" % (a, p, a, p)
         ok = resp.raw.startswith(want + " ")
         return ("ok" if ok else "viol"), "rk_rt." + ("packed" if "packed" in build else "derived"), True, want
+    if op == "rk_tuple":
+        a, p = E.pD(toks[1])
+        want = "V %d %d V %d %d A %d %d %d %d T 1" % (-a, p, a, p, -a, p, a, p)
+        return ("ok" if resp.raw == want else "viol"), "rk_tuple." + ("packed" if "packed" in build else "derived"), True, want
     if op == "rk_cmp":
         x, y = E.pD(toks[1]), E.pD(toks[2])
         c = cmpv(x[0], x[1], y[0], y[1])
@@ -192,8 +196,55 @@ def gen(rng, tier, shard, batch):
                     ltok, rtok = (d, it) if ltok[0] == "D" else (it, d)
             reqs.append("cmpall vv %s %s" % (ltok, rtok))
         else:
-            reqs.append("rk_rt %s" % G.fD(*G.dec(rng)))
+            reqs.append("%s %s" % (rng.choice(("rk_rt", "rk_tuple")), G.fD(*G.dec(rng))))
     return reqs
 
 
-main = C.standard_main(sys.modules[__name__])
+def tool_requests(rng, n):
+    out = []
+    for c, s in ((0, 0), (1, 0), (-1, 0), (M, 0), (-M, 0), (1, 18), (0, 18), (P10[18], 18), (M, 18), (-M, 18)):
+        out.append("rk_rt %s" % G.fD(c, s))
+    while len(out) < n:
+        a, p = G.dec(rng)
+        k = rng.random()
+        if k < 0.2:
+            out.append("rk_rt %s" % G.fD(a, p))
+        elif k < 0.4:
+            out.append("rk_tuple %s" % G.fD(a, p))
+        elif k < 0.8:
+            b, q = rng.choice(G.representations(a, p)) if rng.random() < 0.5 else G.dec(rng)
+            out.append("rk_cmp %s %s" % (G.fD(a, p), G.fD(b, q)))
+        else:
+            out.append("cmpall vv %s %s" % (G.fD(a, p), G.fD(*G.dec(rng))))
+    return out
+
+
+def main(tier, seed):
+    """Value monitor on all builds, then the manual unsafe rkyv impl (feature packed) and the derived one
+    under AddressSanitizer and Miri."""
+    import os
+    import time
+    from .. import build as B
+    t0 = time.time()
+    mod = sys.modules[__name__]
+    code, ev = E.run_property(mod, tier, seed)
+    rng = random.Random(seed * 7919 + 8)
+    wdir = os.path.join(B.WORK, ID)
+    tools = []
+    for feats, tag in ((("full", "packed"), "packed"), (("full",), "derived")):
+        try:
+            asan = B.build("release", feats, kind="asan")
+            env = dict(os.environ)
+            env["ASAN_OPTIONS"] = "halt_on_error=1:abort_on_error=0:detect_leaks=0:exitcode=77"
+            tools.append(E.run_tool(mod, "asan-" + tag, [asan], env, tool_requests(rng, 20000 if tier == "quick" else 200000), wdir, 900))
+        except B.BuildError as e:
+            tools.append({"tool": "asan-" + tag, "status": "inconclusive", "why": "build failed: " + str(e)[-300:]})
+        if tier == "quick" and tag == "derived":
+            continue
+        cmd, env = B.miri_cmd(feats, release=False)
+        env["MIRIFLAGS"] = "-Zmiri-disable-isolation"
+        tools.append(E.run_tool(mod, "miri-" + tag, cmd + ["--"], env, tool_requests(rng, 60 if tier == "quick" else 600), wdir, 2400))
+    code = E.fold_tool_runs(ID, code, ev, tools, wdir, tier, seed)
+    ev["wall_s"] = round(time.time() - t0, 2)
+    E.write_evidence(ID, ev)
+    return code
